@@ -9,6 +9,12 @@ through the real response parser into the real `Listener`).
 Correspondence: same command line and the same consumed answers to Model/Ctl.lean (exit status, calls made with
 arguments, everything written with ctl.output, whether anything went to stderr).
 Monitors: the property statement evaluated on the implementation's observables, independent of the model.
+World part (c20_world.py): the proxy is backed by a simulated supervisord with a state of its own (groups, processes in
+states, pending configuration changes or none, failures, shutting down) that answers with the semantics of
+rpcinterface.py; the statement is evaluated on (command line, world) -- which names are unknown, which processes the
+names select, what the server's result for each is -- independently of the calls the client chose to make, for every
+name-taking action, with unknown names mixed with known ones and the no-op situations (no processes, no pending
+change, everything already in the requested state) in the population.
 """
 import errno as _errno, io, os, re, socket, sys
 from framework import Infra
@@ -22,7 +28,13 @@ TRUSTED = [
     "unmarshalled value or raises Fault / ProtocolError / socket.error (marshalling itself is not modelled)",
     "tail -f / maintail -f: the HTTP transport is one scripted response pushed through the real "
     "http_client.HTTPHandler parser and Listener; sockets, asyncore.loop and Ctrl-C are not modelled",
-    "not modelled: interactive mode (prompts, re-authentication), help, fg, open, quit/exit/EOF, readline completion",
+    "not modelled: interactive mode (prompts, re-authentication), help, fg, open, quit/exit/EOF, readline completion "
+    "(fg: only its exits before the interactive part -- unknown name, process not running, wrong number of names -- "
+    "are run, against the world monitors, without correspondence)",
+    "the simulated supervisord of c20_world.py stands for rpcinterface.py + supervisord: BAD_NAME for unknown names, the "
+    "isRunning / isNotRunning / isSignallable filters of the group and all methods, ALREADY_STARTED / NOT_RUNNING / "
+    "ALREADY_ADDED / STILL_RUNNING, diff_to_active for reloadConfig, SHUTDOWN_STATE for every method while shutting "
+    "down, 404/410 of the logtail handlers; per-process failures are attributes of the world",
     "Python runtime parts modelled by hand and exercised by correspondence only: str.split()/strip() on ASCII "
     "white space, %-formatting with left-justified fields, int() of a signed decimal, repr() of a plain ASCII word, "
     "set iteration order in do_update (compared after sorting the 'no such group' lines)",
@@ -37,7 +49,13 @@ RULE = ("a case = (command line, answers the proxy gives in the order asked); sy
         "ProtocolError 401/500, socket errors ECONNREFUSED/ENOENT/EPIPE, a wrong API version, and for list answers "
         "every status code at every position of lists of length 0-3; random part: random argument lists (valid, "
         "malformed, unknown actions) with random answers, result lists of length 0-4; non-trivial = at least one "
-        "RPC call was made; distinct = distinct (line, answers)")
+        "RPC call was made; distinct = distinct (line, answers); world part: 11 fixed worlds (no processes; no processes "
+        "but an available group; one group; mixed states without / with pending added, changed, removed groups; all "
+        "stopped; all running; per-process failures incl. STOPPING / UNKNOWN / BACKOFF; equal process names in several "
+        "groups; shutting down) x the 12 name-taking actions (start stop restart signal status pid clear add remove "
+        "update tail fg) x name lists built from known and unknown names (each alone, known+unknown in both orders, two "
+        "unknown, two known, known-unknown-known, a name twice, all, unknown+all), plus random worlds (45 % with a "
+        "pending configuration change, 4 % shutting down) with random name lists (about half the names unknown)")
 
 URL = 'http://localhost:65532'
 API = '3.0'
@@ -497,9 +515,37 @@ def monitor(ctx, r, script):
         lines = r.raw.split('\n')
         if not any(w in r.raw for w in FAILWORDS) and not r.proc_err and not any(t in lines for t in texts):
             bad('failure-silent:' + fails[0], 'no error line for a failed request')
+    # --- one request and one line per name (pid / add / remove): a fault the server can raise for one name does not
+    #     end the action for the names after it
+    if action in NAME_METHOD and names and not (action == 'pid' and 'all' in names) and wf:
+        meth = NAME_METHOD[action]
+        asked = [(m, a, ans) for m, a, ans in r.log if m == meth]
+        if 0 < len(asked) < len(names) and asked[-1][2][0] == 'F' and asked[-1][2][1] in name_method_codes()[action] \
+                and not any(ans[0] in ('H', 'E') for _, _, ans in r.log):
+            bad('names-lost-after-fault:%s:%s' % (action, fname(asked[-1][2][1])),
+                'the fault for %r ended the whole action: %d of %d names were asked' % (asked[-1][1][0], len(asked), len(names)))
+        if len(asked) == len(names) and not any(ans[0] in ('H', 'E') for _, _, ans in r.log) and up:
+            n_lines = len(r.raw.split('\n')) - 1
+            if n_lines != len(names):
+                bad('lines-per-name:' + action, '%d names were asked about, %d lines were printed' % (len(names), n_lines))
     # --- one line per result, wording, selection (start/stop/signal/clear/restart)
     if (action in PER_NAME or action == 'restart') and up and not any(a == ('H', 401) for _, _, a in r.log):
         check_results(ctx, r, action, names, bad)
+
+
+NAME_METHOD = {'pid': 'getProcessInfo', 'add': 'addProcessGroup', 'remove': 'removeProcessGroup'}
+_NMC = None
+
+
+def name_method_codes():
+    """fault codes rpcinterface.py can raise for the per-name method of pid / add / remove (from its AST)"""
+    global _NMC
+    if _NMC is None:
+        from sites import ctl as site
+        tree = site._src('supervisor/rpcinterface.py')
+        F = faults()
+        _NMC = {act: {F[c] for c in site._server_codes(tree, meth)} for act, meth in NAME_METHOD.items()}
+    return _NMC
 
 
 def server_codes():
@@ -742,6 +788,14 @@ CORPUS = [
     ('update', [('L', [], [], ['foo']), ('R', [('foo', 'foo', 30, 'FAILED: x')])]),
     (' signal BOGUS ALL g:* a:b:c :x', [V, ('V',), ('R', [('g', 'b', 80, 'OK'), ('h', 'a', 6, 'SHUTDOWN_STATE: a'), ('g', 'b', 80, 'OK'), ('g', 'a', 80, 'OK')]), ('V',), ('V',)]),
     ('stop h:* foo', [V, ('F', 6, 'SHUTDOWN_STATE'), ('F', 6, 'SHUTDOWN_STATE')]),
+    # F45 (fixed dd390fa): remove against a daemon that is shutting down re-raised the fault: one "error: ..." line, the
+    # remaining names were never asked (add words it per name)
+    ('remove foo bar', [('F', 6, 'SHUTDOWN_STATE'), ('F', 6, 'SHUTDOWN_STATE')]),
+    ('remove foo bar', [('F', 6, 'SHUTDOWN_STATE'), ('V',)]),
+    ('add foo bar', [('F', 6, 'SHUTDOWN_STATE'), ('F', 6, 'SHUTDOWN_STATE')]),
+    # F46 (fixed 7613253): pid when the daemon began to shut down after the upcheck: do_pid re-raised SHUTDOWN_STATE
+    ('pid foo bar', [V, ('F', 6, 'SHUTDOWN_STATE'), ('Q', ('bar', 'bar', 20, 'RUNNING', 'd', 7))]),
+    ('pid foo bar', [V, ('F', 6, 'SHUTDOWN_STATE'), ('F', 6, 'SHUTDOWN_STATE')]),
     # 401 without credentials: the action is attempted a second time
     ('status', [('H', 401), ('H', 401)]),
     ('status', [('H', 401), V, ('P', [('foo', 'foo', 0, 'STOPPED', 'Not started', 0)])]),
@@ -932,10 +986,17 @@ _W_ONE = {'procs': [['foo', 'foo', 20, 101, {}, {'stdout': 'x\n', 'stderr': None
 _W_NONE = {'procs': [], 'config': {}, 'changed': [], 'shutting': False, 'mainlog': 'm\n'}
 _W_ADDED = {'procs': [['foo', 'foo', 20, 101, {}, {'stdout': 'x\n', 'stderr': None}]], 'config': {'foo': ['foo'], 'added': ['added']},
             'changed': [], 'shutting': False, 'mainlog': 'm\n'}
+# F47 (open): active groups a (its process is STOPPING), b, c; the file only lists c: `update` stops at the
+# STILL_RUNNING fault for a and never handles b
+_W_F47 = {'procs': [['a', 'a', 40, 5, {}, {'stdout': None, 'stderr': None}], ['b', 'b', 20, 6, {}, {'stdout': None, 'stderr': None}],
+                    ['c', 'c', 20, 7, {}, {'stdout': None, 'stderr': None}]],
+          'config': {'c': ['c']}, 'changed': [], 'shutting': False, 'mainlog': 'm\n'}
 WORLD_CORPUS = [
+    ('update', _W_F47), ('update b', _W_F47), ('update a typo', _W_F47),
     ('update typo', _W_ADDED), ('update added', _W_ADDED),
     ('update typo', _W_ONE), ('update foo typo', _W_ONE), ('update typo foo', _W_ONE), ('update foo', _W_ONE),
     ('update typo', _W_NONE), ('update', _W_NONE), ('update all typo', _W_NONE),
+    ('remove foo bar', dict(_W_ADDED, shutting=True)), ('add foo added', dict(_W_ADDED, shutting=True)),
     ('status typo', _W_NONE), ('start typo', _W_NONE), ('stop all', _W_NONE), ('pid typo', _W_NONE), ('remove typo', _W_NONE),
 ]
 
@@ -969,12 +1030,18 @@ def _retuple(a):
 # ---- MANIFEST metadata -----------------------------------------------------------------------
 TECHNIQUE = ("Lean 4 theorems over an executable model of Controller.onecmd and the 17 actions whose fault comparisons, "
              "exit-status constants, tolerated-fault arguments and wording tables are regenerated from supervisorctl.py; "
-             "differential correspondence against the real Controller with a scripted proxy; independent monitors")
+             "differential correspondence against the real Controller with a scripted proxy; independent monitors, "
+             "incl. the statement evaluated against a simulated supervisord with its own state (c20_world.py)")
 LEVEL_TEXT = ("proved for every action, argument string and answer script of the model, without bound: "
               "failure_exit_nonzero (exit 0 => no request refused/failed and arguments well-formed) and all_ok_exit_zero "
               "(well-formed arguments and every request succeeded, incl. the four tolerated answers => exit 0), "
               "status_exit_3, one_line_per_result, wording_covers_server_codes / wording_matches_table over the "
               "regenerated tables, fault_never_silent, no_traceback, namespec rules and the request each name selects; "
+              "names the client resolves itself: update_unknown_group_reported (an unknown group is reported and the exit "
+              "status non-zero whatever reloadConfig answered, incl. no pending change) and status_unknown_name_reported; "
+              "add_remove_one_line_per_name / pid_one_line_per_name (every fault rpcinterface.py raises for a name is "
+              "worded for that name and the loop goes on); update_one_result_per_group_partial + counterexample "
+              "update_fault_loses_remaining_groups (F47, open); "
               "the model is tied to supervisorctl.py by regenerated comparisons/constants/tables and run against the real "
               "Controller on a systematic single-failure enumeration plus random scripts")
 LEVEL_NOTE = "trusts Lean's kernel, extract.py, the scripted proxy as a stand-in for the XML-RPC transport; see TRUSTED"
